@@ -162,7 +162,12 @@ type cli_respSpec struct {
 	padH      int
 	padD      int
 	emptyLast bool // END_STREAM on an empty DATA frame
+	// dynamic table size updates written by hand (4096, the size the table has anyway)
+	lateUpdate    bool // behind the last field of the block: a decoding error, the response must not be delivered
+	trailerUpdate bool // the stream ends with a trailer block that holds the update and nothing else
 }
+
+var rawSizeUpdate = []byte{0x3f, 0xe1, 0x1f}
 
 func (s *scn) randResp(bodyMax int) cli_respSpec {
 	p := s.p
@@ -210,7 +215,10 @@ func (s *scn) render(sid uint32, r cli_respSpec) [][]byte {
 	block := s.enc.block(fields)
 	r.hdrs = fields[1:]
 	var frames [][]byte
-	endOnHeaders := len(r.body) == 0 && !r.emptyLast
+	endOnHeaders := len(r.body) == 0 && !r.emptyLast && !r.trailerUpdate
+	if r.lateUpdate {
+		block = append(block, rawSizeUpdate...)
+	}
 	hb := frHeaderBlock(sid, block, endOnHeaders, r.cuts, r.padH)
 	// HEADERS and its CONTINUATIONs must be contiguous: one event
 	frames = append(frames, hb)
@@ -223,7 +231,12 @@ func (s *scn) render(sid uint32, r cli_respSpec) [][]byte {
 			frames = append(frames, frData(sid, rem[:c], false, r.padD))
 			rem = rem[c:]
 		}
-		if r.emptyLast {
+		if r.trailerUpdate {
+			if len(rem) > 0 {
+				frames = append(frames, frData(sid, rem, false, r.padD))
+			}
+			frames = append(frames, frHeaderBlock(sid, rawSizeUpdate, true, nil, -1))
+		} else if r.emptyLast {
 			if len(rem) > 0 {
 				frames = append(frames, frData(sid, rem, false, -1))
 			}
@@ -231,6 +244,12 @@ func (s *scn) render(sid uint32, r cli_respSpec) [][]byte {
 		} else {
 			frames = append(frames, frData(sid, rem, true, r.padD))
 		}
+	}
+	if r.lateUpdate {
+		// no expectation record: whatever the client makes of this stream, it is not a response the server sent
+		s.note("late-update %s %d", s.id, sid)
+		delete(s.open, sid)
+		return frames
 	}
 	// expectation: what a conforming client hands to the caller
 	var hs []string
@@ -410,6 +429,56 @@ func genCliResp(p *prng, thorough bool, w *bufio.Writer) {
 		s.read(t1, t2)
 		s.finale("close")
 	}
+	// dynamic table size updates in response blocks (RFC 7541 4.2). In front of the first field of a block they are in
+	// place, also when the block is cut anywhere across HEADERS and CONTINUATION, and a trailer block may hold one and
+	// nothing else. Behind a field of the block an update is a decoding error: that response must not be delivered,
+	// and the one after it must (the tables are still in step).
+	plain := func(extra string) cli_respSpec {
+		return cli_respSpec{status: "200", hdrs: []cli_kv{{k: "x-a", v: "first"}, {k: "x-b", v: extra}}, padH: -1, padD: -1}
+	}
+	for _, size := range []uint32{0, 100, 4096} {
+		for cut := 0; cut < 7; cut++ {
+			s := newScn(w, p.fork(), 3, 100)
+			t1, sid1 := s.req(reqSpec{path: "/one"})
+			t2, sid2 := s.req(reqSpec{path: "/two"})
+			t3, sid3 := s.req(reqSpec{path: "/three"})
+			s.frames(s.render(sid1, plain("fills the table"))...)
+			s.enc.setTableSize(size)
+			r := plain("after the update")
+			if cut > 0 {
+				r.cuts = []int{cut}
+			}
+			s.frames(s.render(sid2, r)...)
+			s.frames(s.render(sid3, plain("after the update"))...)
+			s.read(t1, t2, t3)
+			s.finale("close")
+		}
+	}
+	for _, body := range []string{"", "abc"} {
+		s := newScn(w, p.fork(), 3, 100)
+		t1, sid1 := s.req(reqSpec{path: "/one"})
+		t2, sid2 := s.req(reqSpec{path: "/two"})
+		r := plain("trailers are an update")
+		r.body, r.trailerUpdate = []byte(body), true
+		s.frames(s.render(sid1, r)...)
+		s.frames(s.render(sid2, plain("next"))...)
+		s.read(t1, t2)
+		s.finale("close")
+	}
+	for _, cut := range []int{0, 2, 9} {
+		s := newScn(w, p.fork(), 3, 100)
+		t1, sid1 := s.req(reqSpec{path: "/one"})
+		t2, sid2 := s.req(reqSpec{path: "/two"})
+		r := plain("then an update")
+		r.lateUpdate = true
+		if cut > 0 {
+			r.cuts = []int{cut}
+		}
+		s.frames(s.render(sid1, r)...)
+		s.frames(s.render(sid2, plain("next"))...)
+		s.read(t1, t2)
+		s.finale("close")
+	}
 }
 
 // ---------------------------------------------------------------- C07: uploads against window schedules
@@ -505,8 +574,18 @@ func genCliGoAway(p *prng, thorough bool, w *bufio.Writer) {
 		k := q.intn(5)
 		for j := 0; j < k; j++ {
 			body := "none"
-			if q.chance(1, 4) {
+			switch q.intn(10) {
+			case 0, 1:
 				body = fmt.Sprintf("buf:1:%d", 1+q.intn(100))
+			case 2:
+				// more than the window: the tail is still pending when the GOAWAY comes
+				body = "buf:2:70000"
+			case 3:
+				// from a reader: once written, such a request must not be called retryable
+				body = "str:3:30:10.20:eof"
+			case 4:
+				// from a reader and held up by the window
+				body = "str:4:-1:16384.16384.16384.16384.16384:eof"
 			}
 			s.req(reqSpec{path: fmt.Sprintf("/r%d", j), body: body})
 		}
@@ -921,6 +1000,38 @@ func genCliSettings(p *prng, thorough bool, w *bufio.Writer) {
 		}
 		s.op("gauges")
 		s.finale("close")
+	}
+	// SETTINGS_HEADER_TABLE_SIZE changed several times between two requests, in one SETTINGS frame or in several: the
+	// client's encoder has to announce the smallest value and the last one (RFC 7541 4.2), or the request that
+	// follows indexes into a table the server has emptied (finding F09c)
+	dips := [][][]uint32{
+		{{0, 4096}}, {{0}, {4096}}, {{100, 4096}}, {{4096, 0, 4096}}, {{0}, {8192}}, {{2048}, {0}, {4096}},
+		{{8192, 4096}}, {{0, 0}}, {{4096, 100}}, {{100}, {50}, {200}}, {{4096}}, {{0}}, {{65536, 0, 65536}},
+	}
+	for _, first := range []uint32{4096, 100, 0} {
+		for _, dip := range dips {
+			var st []uint32
+			if first != 4096 {
+				st = append(st, 1, first)
+			}
+			s := newScn(w, p.fork(), st...)
+			hd := []cli_kv{{k: "X-Foo", v: "bar"}}
+			_, sid := s.req(reqSpec{path: "/a", hdrs: hd})
+			s.frame(s.resp(sid, "200", nil, nil))
+			for _, fr := range dip {
+				var f []uint32
+				for _, v := range fr {
+					f = append(f, 1, v)
+				}
+				s.note("settings %s %v", s.id, f)
+				s.frame(frSettings(f...))
+			}
+			for k := 0; k < 2; k++ {
+				_, sid = s.req(reqSpec{path: "/a", hdrs: hd})
+				s.frame(s.resp(sid, "200", nil, nil))
+			}
+			s.finale("close")
+		}
 	}
 }
 
